@@ -163,8 +163,23 @@ func repeatString(lhs *CandidateNode, rhs *CandidateNode) (*CandidateNode, error
 	return target, nil
 }
 
+// renumberSequenceChildren makes the keys of sequence elements say where the elements are: an element
+// that came out of sort, reverse, + or a slice still carries the index it had in its source
+func renumberSequenceChildren(node *CandidateNode) {
+	for index, child := range node.Content {
+		if node.Kind == SequenceNode && child.Key != nil {
+			child.Key.Value = fmt.Sprintf("%v", index)
+		}
+		renumberSequenceChildren(child)
+	}
+}
+
 func mergeObjects(d *dataTreeNavigator, context Context, lhs *CandidateNode, rhs *CandidateNode, preferences multiplyPreferences) (*CandidateNode, error) {
 	var results = list.New()
+
+	// the entries of rhs are addressed by their paths: work on a copy whose sequence indices are true
+	rhs = rhs.Copy()
+	renumberSequenceChildren(rhs)
 
 	// only need to recurse the array if we are doing a deep merge
 	prefs := recursiveDescentPreferences{RecurseArray: preferences.DeepMergeArrays,
